@@ -87,6 +87,8 @@ func runC04(r *Run) {
 
 	// --- after.full
 	r.checkAfterFull(P)
+	// a later recover must not be ordered before the deactivate it competes with
+	r.checkChrono(P, "sortOperations@processor", r.fn(P, pkgProcessor, "sortOperations"))
 	// coordinates threading (shared with C03.full.then.update)
 	r.checkFullThenUpdate(P)
 }
@@ -172,12 +174,11 @@ func (r *Run) checkAfterFull(P string) {
 			r.R.Unk(id, rule, core.FuncName(f), r.where(f), why, "cannot evaluate: "+why2)
 			return
 		}
-		c, isC := core.RetOp(ret, 0).(*ssa.Const)
-		if !isC {
-			r.R.Unk(id, rule, core.FuncName(f), r.where(f), why, "non-constant result")
+		got, why3 := ev.retBool(ret, 0)
+		if why3 != "" {
+			r.R.Unk(id, rule, core.FuncName(f), r.where(f), why, "cannot evaluate the returned value: "+why3)
 			return
 		}
-		got := c.Value.String() == "true"
 		want := env.rank["ref"] == env.rank["0"] || env.rank["time"] > env.rank["T"] || (env.rank["time"] == env.rank["T"] && env.rank["num"] > env.rank["N"])
 		if got != want && len(det) < 3 {
 			good = false
@@ -288,6 +289,7 @@ func runC06(r *Run) {
 	}
 	r.checkSortedBeforeGroup(P)
 	r.checkChrono(P, "sortOperations@processor", r.fn(P, pkgProcessor, "sortOperations"))
+	r.checkVersionBlindPaths(P)
 
 	// --- filter.time
 	if ft := r.fn(P, pkgProcessor, "filterOpsByVersionTime"); ft != nil {
@@ -569,4 +571,51 @@ func blockReaches(ff *core.FnFacts, from, to, stop *ssa.BasicBlock) bool {
 		}
 	}
 	return false
+}
+
+// checkVersionBlindPaths: in DocumentHandler.ResolveDocument the resolution
+// options reach the processor on the anchored path; the other way to a result,
+// resolution from the long-form initial state, ignores them. That path is
+// selected by a substring of the processor's error text, and the version errors
+// echo the caller's versionId / versionTime, so it must be reachable only when
+// no version was requested.
+func (r *Run) checkVersionBlindPaths(P string) {
+	rd := r.fn(P, pkgDocHandler, "DocumentHandler.ResolveDocument")
+	if rd == nil {
+		return
+	}
+	ff := r.E.Facts(rd, core.Ctx{})
+	// (1) the anchored path threads the options
+	calls := r.callsIn(rd, "DocumentHandler.resolveRequestWithID")
+	r.R.Floor(P+".version.handler.floor", "instance floor", len(calls), 1, "resolveRequestWithID call in ResolveDocument")
+	for _, c := range calls {
+		args := core.CallArgs(c.Common())
+		ok := len(args) > 0 && len(rd.Params) > 0 && args[len(args)-1] == ssa.Value(rd.Params[len(rd.Params)-1])
+		r.R.Check(ok, P+".version.handler.thread", "E13: ResolveDocument passes its resolution options unchanged to resolveRequestWithID", core.FuncName(rd), r.P.Pos(c.Pos()),
+			"dropped options resolve the latest state whatever version was requested", "opts threaded", "the options argument is "+ff.TB.Of(args[len(args)-1]).String())
+	}
+	if w := r.fn(P, pkgDocHandler, "DocumentHandler.resolveRequestWithID"); w != nil {
+		wf := r.E.Facts(w, core.Ctx{})
+		for _, c := range r.callsIn(w, "processor.Resolve") {
+			args := core.CallArgs(c.Common())
+			ok := args[len(args)-1] == ssa.Value(w.Params[len(w.Params)-1])
+			r.R.Check(ok, P+".version.handler.thread.resolve", "E13: resolveRequestWithID passes the resolution options unchanged to the operation processor", core.FuncName(w), r.P.Pos(c.Pos()),
+				"dropped options resolve the latest state whatever version was requested", "opts threaded", "the options argument is "+wf.TB.Of(args[len(args)-1]).String())
+		}
+	}
+	// (2) every version-blind result path is under "no version requested"
+	blind := r.callsIn(rd, "DocumentHandler.resolveRequestWithInitialState")
+	r.R.Floor(P+".version.blind.floor", "instance floor", len(blind), 1, "initial-state resolution call in ResolveDocument")
+	for i, c := range blind {
+		at := ff.At(c)
+		_, ok := core.MatchAll(at, []string{
+			"ok(document.GetResolutionOptions($2))",
+			`cmp(document.GetResolutionOptions($2).VersionID == "")`,
+			`cmp(document.GetResolutionOptions($2).VersionTime == "")`,
+		}, nil)
+		r.R.Check(ok, fmt.Sprintf("%s.version.blind.%d", P, i+1), "E8 never-before: resolution from the long-form initial state (which ignores versionId/versionTime) only under VersionID = \"\" ∧ VersionTime = \"\" of the given options",
+			core.FuncName(rd), r.P.Pos(c.Pos()),
+			"the fallback is selected by the text \"not found\" in the processor's error, and the unknown-version errors echo the requested version: a long-form DID resolved at versionId \"x not found\" (or an unparsable versionTime containing that text) is answered with the initial-state document instead of an error",
+			"dominated by both emptiness tests", "initial-state resolution reachable with a version requested")
+	}
 }
